@@ -93,6 +93,25 @@ func (ts *treeStorage) Set(tree *Tree) {
 	ts.trees[tree.ID] = tree
 }
 
+// setIfMissing stores the tree and cancels a potential removal, unless a tree
+// is already stored under its id; with onlyRequested, only when the id has
+// been registered and its tree not received yet. The test and the write are
+// one step: a tree that is present is never replaced.
+func (ts *treeStorage) setIfMissing(tree *Tree, onlyRequested bool) bool {
+	ts.Lock()
+	defer ts.Unlock()
+
+	t, ok := ts.trees[tree.ID]
+	if t != nil || (onlyRequested && !ok) {
+		return false
+	}
+
+	ts.cancelDeletion(tree.ID)
+
+	ts.trees[tree.ID] = tree
+	return true
+}
+
 // Remove starts a timeout to remove the tree from the storage
 func (ts *treeStorage) Remove(id TreeID) {
 	ts.Lock()
